@@ -51,6 +51,17 @@ CLAIMS = {
             'err_handler with segment ids, values, delimiters and messages chosen symbolically from hostile tables: outside the fixed template tags no < or > may appear and every message is shown.',
             'Trusted: CrossHair, z3, the template-tag list. Table-chosen payloads because %-formatting with %i concretises symbolic strings.',
             'DESIGN.md §5 C19'),
+    'C05': ('other', 'bounded symbolic execution (CrossHair+z3) of the error tree, its counters and the 997/999 visitors over symbolic tree shapes',
+            'Error trees are built through the real err_handler API in x12n_document\'s call order from symbolic shape flags; the acknowledgement text written by the real visitors '
+            'must name every group and set in order, mark a set / group accepted iff nothing was recorded inside, give declared/received/accepted totals equal to a recount, be addressed '
+            'back to the sender, itemise segment/element errors at the right coordinates, and get_error_count() > 0 iff anything was recorded.',
+            'Trusted: CrossHair, z3, the recount oracle, stub reader / map nodes. Shapes <= 2 groups x 2 sets; flags varied per family (set / group).',
+            'DESIGN.md §5 C05'),
+    'C06': ('other', 'bounded symbolic execution (CrossHair+z3) of the 997/999 visitors, X12Writer and X12Reader over symbolic tree shapes and hostile echoed values',
+            'For every tree shape (1..3 interchanges) the acknowledgement must have exact SE/GE/IEA counts and matching control numbers, be read back by the real reader without '
+            'envelope error, keep its segment/element structure whatever hostile value is echoed, select the 997/999 map in the real index and be accepted by the real validator.',
+            'Trusted: CrossHair, z3, the envelope recount. One listed known finding (control numbers that contain the acknowledgement delimiters).',
+            'DESIGN.md §5 C06'),
 }
 
 NOT_YET = 'check not built yet in this round (planned: see DESIGN.md §5)'
